@@ -149,7 +149,7 @@ static void run_case(const Case &c)
         u64 m = c.n;
         if (c.pre == 1) m = (2 * c.n <= c.D) ? 2 * c.n : c.n / 2;
         else if (c.pre == 2) m = (c.n >= 2) ? c.n / 2 : 2 * c.n;
-        else m = c.D;
+        else { m = 1; while (2 * m <= c.D) m *= 2; } // largest power of two within the object's domain
         if (m >= 1 && m <= c.D)
         {
             std::vector<E> pin(m * 2), pout(m * 2);
@@ -329,8 +329,8 @@ int main(int argc, char **argv)
     std::string which = cs(args.kv, "prop", "C03");
     const bool th = args.thorough();
     std::vector<Case> cases;
-    std::vector<u64> Ds = {1, 2, 4, 8, 16, 32};
-    if (th) { Ds.push_back(64); Ds.push_back(128); Ds.push_back(256); Ds.push_back(1024); }
+    std::vector<u64> Ds = {1, 2, 4, 8, 16, 32, 3, 6, 12, 24}; // the maximum domain given to the constructor need not be a power of two
+    if (th) { Ds.push_back(64); Ds.push_back(128); Ds.push_back(256); Ds.push_back(1024); Ds.push_back(48); Ds.push_back(1000); }
     std::vector<unsigned> nth = th ? std::vector<unsigned>{1, 2, 3, 7} : std::vector<unsigned>{1, 3};
     if (which == "C03" || which == "C04")
     {
@@ -343,7 +343,8 @@ int main(int argc, char **argv)
                 for (u64 ncols : {0ULL, 1ULL, 2ULL, 3ULL, 5ULL})
                 {
                     if ((n == 0 || ncols == 0) && D > 4) continue; // no-op shapes: small objects suffice
-                    if (D >= 256 && (ncols == 2 || ncols == 5 || (n < D && n > 8 && n != D / 2))) continue; // big objects: reduced cross product
+                    if (D >= 256 && (ncols == 2 || ncols == 5 || (n < D / 2 && n > 8 && n != D / 4))) continue; // big objects: reduced cross product
+                    if ((D & (D - 1)) && (ncols == 2 || ncols == 5)) continue; // non-power-of-two domains: reduced column set
                     std::vector<u64> phases;
                     for (u64 p = 0; p <= lg(D) + 2; p++) phases.push_back(p);
                     phases.push_back(~0ULL);
@@ -369,7 +370,7 @@ int main(int argc, char **argv)
             for (u64 e : {1ULL, 2ULL, 4ULL, 8ULL})
             {
                 u64 Next = N * e;
-                std::vector<u64> Dl = {N, 2 * N, Next};
+                std::vector<u64> Dl = {N, 2 * N, Next, 3 * N};
                 std::sort(Dl.begin(), Dl.end());
                 Dl.erase(std::unique(Dl.begin(), Dl.end()), Dl.end());
                 for (u64 D : Dl)
